@@ -390,6 +390,12 @@ func (g *storeGenState) refused() {
 			p := g.pickNode()
 			if n != p && !g.edges[p+">"+n] && g.isAncestorOrSelf(n, p, 0) && n != storeRootID {
 				// (also when the new edge would be created already deleted: a deleted edge is walked like any other)
+				if ps := g.parents[n]; len(ps) > 0 && ps[0] != "root" && ps[0] != p && g.r.Intn(2) == 0 {
+					// the same refusal reached through the move helper of the client package: nothing of the move may happen
+					g.add("refused-move-api", sOp{Kind: "ep", Node: n, Parent: p, API: "move", OldParent: ps[0],
+						Points: []sPoint{g.tombPoint(0), g.typePoint("group")}})
+					return
+				}
 				g.add("refused-cycle", sOp{Kind: "ep", Node: n, Parent: p, Points: []sPoint{g.tombPoint(float64(g.r.Intn(2))), g.typePoint("group")}})
 				return
 			}
